@@ -16,6 +16,7 @@ type Gen struct {
 	NoRoot    bool // never mention the root node
 	letBias   bool // generate let expressions often
 	enumFuncs bool // keys / values / items / group_by / merge
+	wideNames bool // quoted identifiers, escapes, unicode in names and strings
 	freeVars  bool // sometimes reference variables that are not bound
 	mutFuncs  bool // functions that build or reorder arrays: sort, sort_by, reverse, max_by, zip, literals
 	vars      []string
@@ -49,6 +50,15 @@ func (g *Gen) smallLit() *R {
 
 func (g *Gen) atom(d int) *R {
 	n := rng.Intn(20)
+	if g.wideNames && rng.Intn(5) == 0 {
+		switch rng.Intn(3) {
+		case 0:
+			return fld(pick([]string{"x y", "é", "a\"b", "tab\t", "let", "in", "1a", "", "😀", "back\\slash", "nl\n"}))
+		case 1:
+			return raw(pick([]string{"it's", "a\\b", "é€😀", "`", "\"", "line\nbreak"}))
+		}
+		return lit(pick([]any{"a`b", "é", "q\"uote", jsonDoc("{\"k y\":[1,\"`\"]}"), jsonDoc("[1.50,-0,1e5]")}))
+	}
 	switch {
 	case n < 9:
 		return fld(pick(fieldNames))
